@@ -218,8 +218,9 @@ def unit_registry_to_human_readable(unit_registry):
             dim_list = list(unit_registry[k].dimensionality)
             if len(dim_list) != 1:
                 raise TypeError("Compound units not allowed: {}".format(dim_list))
-            u_symbol = dim_list[0].u_symbol
-            new_registry[k] = float(unit_registry[k]), u_symbol
+            # the ASCII symbol: "µmol" (u_symbol) cannot be parsed back
+            symbol = dim_list[0].symbol
+            new_registry[k] = float(unit_registry[k]), symbol
     return new_registry
 
 
